@@ -442,6 +442,37 @@ pub fn c9() -> OptionParser<(bool, Cmd1)> {
     construct!(v, cmd).to_options()
 }
 
+#[derive(Debug, Clone, PartialEq)]
+pub enum Input {
+    Stdin,
+    File(u32),
+}
+
+fn f1_input() -> impl Parser<Input> {
+    let stdin = short('i').long("stdin").req_flag(Input::Stdin);
+    let file = positional::<u32>("FILE").map(Input::File);
+    construct!([stdin, file])
+}
+
+/// a choice between a named flag and a positional, next to a switch
+pub fn f1() -> OptionParser<(bool, Input)> {
+    let v = short('v').long("verbose").switch();
+    let input = f1_input();
+    construct!(v, input).to_options()
+}
+
+fn f2_cat() -> OptionParser<Input> {
+    let input = f1_input();
+    construct!(input).to_options()
+}
+
+/// the same choice inside a subcommand
+pub fn f2() -> OptionParser<(bool, Input)> {
+    let v = short('v').long("verbose").switch();
+    let cat = f2_cat().command("cat");
+    construct!(v, cat).to_options()
+}
+
 /// switch declared before a repeated argument (the switch's consumption precedes the loop)
 pub fn g4() -> OptionParser<(bool, Vec<u32>, u32)> {
     let a = short('a').long("alpha").switch();
